@@ -16,6 +16,8 @@ From Coq Require Import List NArith ZArith Bool Lia.
 From NV Require Import Base.Decimal Base.DecimalProofs Sam.Fields Sam.FieldsProofs Sam.Record Sam.RecordProofs.
 From NV Require Import Sam.Header Sam.HeaderProofs Sam.HeaderWfProofs Sam.BamAgree.
 From NV Require Import Sam.BamHeader Sam.BamHeaderProofs Sam.Lazy Sam.LazyProofs Sam.LazyWritten.
+From NV Require Import Sam.LazyData Sam.LazyDataProofs Sam.File Sam.FileProofs Sam.FileAgree.
+From NV Require Bam.File Bam.FileProofs.
 From NV Require Bam.Record Bam.Encode Bam.Decode Bam.CodecProofs Bam.AuxProofs.
 Import ListNotations.
 Open Scope N_scope.
@@ -387,3 +389,134 @@ Proof.
   - unfold wf_rec. cbn. repeat split; try (repeat constructor; cbn; try lia; intuition discriminate); try discriminate.
   - vm_compute. reflexivity.
 Qed.
+
+(* ---- the optional fields of the lazy record (NV.Sam.LazyData: Data::iter, parse_field, the
+   per-type lazy value parsers incl. the i32-then-u32 integer parser, Z / H slices, arrays kept as
+   text and parsed element by element, the value conversion and the data loop of
+   RecordBuf::try_from_alignment_record).  Float text stays an oracle; the two premises relate
+   lexical's parse and parse_partial (validated on the implementation by the lzc cases):
+   (H_a) a complete float followed by the end or a TAB is read by parse_partial with that rest;
+   (H_b) what parse_partial consumed has no comma and is a complete float of the same value;
+   (H_e) the empty text is not a float.
+   For EVERY line the eager parser accepts -- POS/PNEXT zero written "0" as before, and every
+   element of an integer array has a digit (arr_canon; `B:c,,1` is refuted below) --
+   try_from_alignment_record of the lazy record is the eager record, the optional fields in the
+   same order with equal values, integer tags by value (the lazy parser yields Int32/UInt32, the
+   eager one the smallest type: normf). *)
+Theorem c06_lazy_convert_eq_eager :
+  forall (parse32 : bytes -> option N) (parse32p : bytes -> option (N * bytes)),
+    (forall f b rest, parse32 f = Some b -> NoTab f -> tail_ok rest -> parse32p (f ++ rest) = Some (b, rest)) ->
+    (forall s v rest, parse32p s = Some (v, rest) -> exists f, s = f ++ rest /\ parse32 f = Some v /\ NoComma f) ->
+    parse32 [] = None ->
+    forall refs text r,
+      parse_line parse32 parse32p refs text = POk r ->
+      let fs := split_tab (line_of text) in
+      canon_pos (fld fs 3) -> canon_pos (fld fs 7) -> forallb arr_canon (skipn 11 fs) = true ->
+      exists d', lazy_convert parse32 parse32p refs text = COk (set_data (strip_data r) d')
+                 /\ map normf d' = r_data r.
+Proof. exact lazy_convert_eq_eager. Qed.
+Print Assumptions c06_lazy_convert_eq_eager.
+
+(* the iterator itself: data().iter() of the lazy record yields a list of fields without error,
+   and converting them one by one (conv_list = TryFrom<Value> + Data::insert) gives the eager data *)
+Theorem c06_lazy_data_eq_eager :
+  forall (parse32 : bytes -> option N) (parse32p : bytes -> option (N * bytes)),
+    (forall f b rest, parse32 f = Some b -> NoTab f -> tail_ok rest -> parse32p (f ++ rest) = Some (b, rest)) ->
+    (forall s v rest, parse32p s = Some (v, rest) -> exists f, s = f ++ rest /\ parse32 f = Some v /\ NoComma f) ->
+    parse32 [] = None ->
+    forall refs text r,
+      parse_line parse32 parse32p refs text = POk r ->
+      let fs := split_tab (line_of text) in
+      canon_pos (fld fs 3) -> canon_pos (fld fs 7) -> forallb arr_canon (skipn 11 fs) = true ->
+      exists data l d', lazy_view refs text = LOk (strip_data r) data
+                        /\ lazy_data parse32p data = DOk l
+                        /\ conv_list parse32 l [] = Some d' /\ map normf d' = r_data r.
+Proof. exact lazy_data_eq_eager. Qed.
+Print Assumptions c06_lazy_data_eq_eager.
+
+Theorem c06_lazy_array_digitless_refuted : exists refs text r,
+  parse_line (fun _ => None) (fun _ => None) refs text = POk r
+  /\ r_data r = [((88, 66), AArrI I8 [0%Z; 1%Z])]
+  /\ lazy_convert (fun _ => None) (fun _ => None) refs text = CErr 11.
+Proof. exact lazy_array_digitless_refuted. Qed.
+Print Assumptions c06_lazy_array_digitless_refuted.
+
+(* totality on ANY bytes (the statement C15 asks for as sam_lazy_data_never_panics): the model of
+   the optional-field parsers has no panic outcome -- the only partial operation of the code is
+   `&src[i..]` with the index lexical's parse_partial returns -- and the iteration and the
+   conversion loop always END: every successfully parsed field consumes at least one byte, so the
+   out-of-fuel result is unreachable; the outcome is a list or UnexpectedEof / InvalidData *)
+Theorem c06_lazy_data_total :
+  forall (parse32 : bytes -> option N) (parse32p : bytes -> option (N * bytes)),
+    (forall s v rest, parse32p s = Some (v, rest) -> (length rest <= length s)%nat) ->
+    forall data, lazy_data parse32p data <> DErr DFuel
+                 /\ lazy_data_conv parse32 parse32p data <> DErr DFuel.
+Proof.
+  intros p pp H data. split; [exact (lazy_data_total p pp H data)|exact (lazy_data_conv_total p pp H data)].
+Qed.
+Print Assumptions c06_lazy_data_total.
+
+Example c06_lazy_data_example :
+  lazy_data (fun _ => None) [78;77;58;105;58;49;9;88;65;58;66;58;67;44;49;44;50;9;88;66;58;90;58;97;32;98]
+  = DOk [((78,77), LI32 1%Z); ((88,65), LArrI U8 [49;44;50]); ((88,66), LStr [97;32;98])]
+  /\ lazy_convert (fun _ => None) (fun _ => None) []
+       [42;9;52;9;42;9;48;9;50;53;53;9;42;9;42;9;48;9;48;9;42;9;42;9;
+        78;77;58;105;58;52;50;57;52;57;54;55;50;57;53;9;88;65;58;66;58;67;44;49;44;50;10]
+     = COk (mkRec None 4 None 0 255 [] None 0 0%Z [] []
+                  [((78,77), AInt U32 4294967295%Z); ((88,65), AArrI U8 [1%Z; 2%Z])]).
+Proof. split; vm_compute; reflexivity. Qed.
+
+(* ---- whole files (NV.Sam.File: sam::io::Writer = header text then one line per record;
+   sam::io::Reader = read_header through the header adapter, which consumes exactly the leading
+   '@' lines, then read_record_buf until it returns 0).  What the writer emits for a header and ANY
+   number of records is read back as the same header and the same records (as the text path
+   returns them: norm_rec), and then the end of input -- no record is lost, split or invented at
+   the header/record boundary (a QNAME cannot start with '@') or between lines. *)
+Theorem c06_file_roundtrip :
+  forall (fmt32 fmtd32 : N -> bytes) (parse32 : bytes -> option N) (parse32p : bytes -> option (N * bytes)),
+    (forall b, finite32 b = true -> parse32 (fmt32 b) = Some b) ->
+    (forall b, PR (fmt32 b)) ->
+    (forall b rest, finite32 b = true -> (rest = [] \/ exists r, rest = 44 :: r) ->
+                    parse32p (fmtd32 b ++ rest) = Some (b, rest)) ->
+    (forall b, PR (fmtd32 b)) ->
+    forall h rs t,
+      wf_header h -> wf_refs (refs_of h) -> Forall wf_rec rs ->
+      Sam.File.write_file fmt32 fmtd32 h rs = Some t ->
+      Sam.File.read_file parse32 parse32p t = Some (h, (map norm_rec rs, FEof)).
+Proof. exact file_roundtrip. Qed.
+Print Assumptions c06_file_roundtrip.
+
+(* ---- the property as ONE statement about whole files: the same header and record list written
+   as a SAM file and as a BAM file (C05's NV.Bam.File: header block + framed records read in a
+   loop) read back with equal headers and record lists that agree record by record up to integer
+   tags by value, the BAM base alphabet and a dropped user CG field.  This is c06_full_statement
+   restricted to the premises under which it is true of the faithful models (wf_header incl.
+   "a comment does not end in CR", no single quality score 9: both refuted above). *)
+Theorem c06_file_sam_bam_agree :
+  forall (fmt32 fmtd32 : N -> bytes) (parse32 : bytes -> option N) (parse32p : bytes -> option (N * bytes)),
+    (forall b, finite32 b = true -> parse32 (fmt32 b) = Some b) ->
+    (forall b, PR (fmt32 b)) ->
+    (forall b rest, finite32 b = true -> (rest = [] \/ exists r, rest = 44 :: r) ->
+                    parse32p (fmtd32 b ++ rest) = Some (b, rest)) ->
+    (forall b, PR (fmtd32 b)) ->
+    forall h rs t bs,
+      wf_header h -> wf_refs (refs_of h) ->
+      Forall wf_rec rs -> Forall wf_bits rs -> Forall (fun r => r_qual r <> [9]) rs ->
+      Sam.File.write_file fmt32 fmtd32 h rs = Some t ->
+      Bam.File.write_file h (map to_bam_d rs) = Bam.Record.Ok bs ->
+      exists rs_s rs_b,
+        Sam.File.read_file parse32 parse32p t = Some (h, (rs_s, FEof)) /\
+        Bam.File.read_file bs = Bam.Record.Ok (h, (rs_b, Bam.File.EndEof)) /\
+        map (fun r => Bam.CodecProofs.norm (to_bam_d r)) rs_s = map by_value rs_b.
+Proof. exact file_sam_bam_agree. Qed.
+Print Assumptions c06_file_sam_bam_agree.
+
+Definition c06_file_example_h : header := mkHeader None [mkSq [99;104;114;49] 9 []] [] [] [].
+Definition c06_file_example_r : sam_rec :=
+  mkRec (Some [114]) 0 (Some 0) 1 0 [(0, 1)] None 0 0%Z [65] [0] [((78,77), AInt I32 1%Z)].
+Example c06_file_example :
+  match Sam.File.write_file (fun _ => []) (fun _ => []) c06_file_example_h [c06_file_example_r; c06_file_example_r] with
+  | Some t => Sam.File.read_file (fun _ => None) (fun _ => None) t
+  | None => None
+  end = Some (c06_file_example_h, ([norm_rec c06_file_example_r; norm_rec c06_file_example_r], FEof)).
+Proof. vm_compute. reflexivity. Qed.
